@@ -40,8 +40,11 @@ for f in kf["findings"]:
                 rec["buckets"] = [l.strip().split(" ")[0] for l in p.stdout.splitlines() if l.strip().startswith("bucket=")][:4]
                 rec["wall_s"] = round(time.time() - t0, 1)
                 rec["reported_again"] = p.returncode == 1 and bool(rec["violations"])
+                # a later fix may use what this one introduced: the tree with the revert then does not import (the check exits 2)
+                rec["tree_imports"] = p.returncode != 2
             results.append(rec)
-            print(("REPORTED " if rec.get("reported_again") else "MISSED   " if ok_revert else "NOREVERT "), prop, ",".join(commits), f["bucket"], rec.get("buckets"), flush=True)
+            status = "REPORTED " if rec.get("reported_again") else "NOREVERT " if not ok_revert else "NOIMPORT " if not rec.get("tree_imports", True) else "MISSED   "
+            print(status, prop, ",".join(commits), f["bucket"], rec.get("buckets"), flush=True)
     finally:
         subprocess.run(["git", "-C", "/repo", "worktree", "remove", "--force", scratch], capture_output=True)
         shutil.rmtree(scratch, ignore_errors=True)
